@@ -20,6 +20,7 @@ pub const MECHANISMS: &[&str] = &[
     "self_top",            // the top file itself takes part in the include cycle / chain through a search dir
     "guarded_reentry",     // a macro expands to an `include of a guarded header that uses the same macro again
     "include_name_alias",  // `include `N1 where N1 -> N2 -> ... are object-like aliases ending in the quoted name
+    "macro_paren",         // `define A a / `define Mi `A(`M(i+1)): recursion through the restored parenthesis of an argument-less macro
 ];
 
 pub const CYCLES: u64 = 8; // cycle lengths 1..=8
@@ -86,6 +87,21 @@ fn build(mech: &str, refs: &[Option<u64>], marker: &str, rng: &mut Rng, dirs: &[
             t.push_str(&filler(rng));
             nodes.push(VNode::file("/w/top.sv", &t));
             Built { nodes, macro_levels: levels, include_levels: 0 }
+        }
+        "macro_paren" => {
+            let mut t = filler(rng);
+            t.push_str("`define A a\n");
+            for i in 1..=levels {
+                match refs[i as usize] {
+                    Some(j) => t.push_str(&format!("`define M{} `A(`M{})\n", i, j)),
+                    None => t.push_str(&format!("`define M{} `A({})\n", i, marker)),
+                }
+            }
+            t.push_str("`M1 ;\n");
+            t.push_str(&filler(rng));
+            nodes.push(VNode::file("/w/top.sv", &t));
+            // every step costs two expansion levels: Mi, then A whose parenthesis is re-scanned
+            Built { nodes, macro_levels: 2 * levels, include_levels: 0 }
         }
         "include_name_alias" => {
             // everything in the top file; the include name is reached through `levels` alias hops
@@ -233,7 +249,7 @@ impl Property for C09 {
             1 => vec!["/inc1".to_string()],
             _ => vec!["/inc1".to_string(), "/inc2".to_string()],
         };
-        let is_macro = mech == "macro" || mech == "macro_args" || mech == "include_name_alias";
+        let is_macro = mech == "macro" || mech == "macro_args" || mech == "include_name_alias" || mech == "macro_paren";
         let refs: Vec<Option<u64>> = if is_cycle {
             let l = n;
             if is_macro {
@@ -251,6 +267,29 @@ impl Property for C09 {
         };
         let built = build(mech, &refs, &marker, &mut rng, &dirs);
         sc.vfs = built.nodes;
+        // decoration: k sibling (sequential, not nested) includes and expansions before the structure: the
+        // depth counters must not accumulate over siblings
+        if rng.chance(1, 4) {
+            let k = 1 + rng.below(70);
+            let kind = rng.below(3);
+            let mut pre = String::new();
+            for i in 0..k {
+                match kind {
+                    0 => pre.push_str(&format!("`define SN{} \"sib.svh\"\n`include `SN{}\n", i % 3, i % 3)),
+                    1 => pre.push_str("`include \"sib.svh\"\n"),
+                    _ => pre.push_str(&format!("`define SM{} s{}\n`SM{} ;\n", i % 3, i, i % 3)),
+                }
+            }
+            for n in sc.vfs.iter_mut() {
+                if let VNode::File { path, bytes: Bytes::Text(t) } = n {
+                    if path == "/w/top.sv" {
+                        *t = format!("{}{}", pre, t);
+                    }
+                }
+            }
+            sc.vfs.push(VNode::file("/w/sib.svh", "// sibling header\nsib;\n"));
+            sc.family = "siblings".into();
+        }
         // decoration: the same file present at several search locations (identical content), a directory listed twice
         let mut dirs = dirs;
         if !dirs.is_empty() && rng.chance(1, 3) {
@@ -307,7 +346,8 @@ impl Property for C09 {
         }
         ops.push(Op::Call(c));
         sc.threads = vec![ops];
-        sc.family = format!("{}:{}{}{}", mech, if is_cycle { "cycle" } else { "chain" }, n, if prefix > 0 { format!("+after{}failing", prefix) } else { String::new() });
+        let sib = if sc.family == "siblings" { "+siblings" } else { "" };
+        sc.family = format!("{}:{}{}{}{}", mech, if is_cycle { "cycle" } else { "chain" }, n, if prefix > 0 { format!("+after{}failing", prefix) } else { String::new() }, sib);
         sc.expect = json!({
             "mechanism": mech,
             "shape": if is_cycle { "cycle" } else { "chain" },
@@ -423,10 +463,12 @@ impl Property for C09 {
             let err_line = format!("ERR {}", d.err.clone().unwrap_or_default());
             if shape == "cycle" {
                 // expected: Include^k(ExceedRecursiveLimit), k = include levels entered
+                // include levels entered where the call stopped descending (not the maximum over the call:
+                // sibling includes that were entered and left do not wrap the error)
                 let entered = if call.api == Api::Preprocess {
-                    o.max_file_depth.saturating_sub(1)
+                    o.last_file_depth.saturating_sub(1)
                 } else {
-                    o.max_file_depth
+                    o.last_file_depth
                 };
                 let wrappers = err_line.matches("Include(").count();
                 let innermost_ok = err_line.contains("ExceedRecursiveLimit") && err_line.starts_with("ERR ");
